@@ -156,6 +156,14 @@ def _real_find(m, t):
         i = m.full_text.find(t, i + 1)
     return -1
 
+def _loose(x):
+    """what every approximate matcher stage preserves: the text with Markdown markers and heading prefixes dropped, typographic quotes
+    made plain, [___] placeholders of any length equal and whitespace runs collapsed (coarser than each stage, so never a false alarm)"""
+    x = re.sub(r'(?m)^#+\s*', '', x)
+    x = x.replace('\u201c', '"').replace('\u201d', '"').replace('\u2018', "'").replace('\u2019', "'")
+    x = re.sub(r'[*_]', '', x)
+    return re.sub(r'\s+', ' ', x).strip()
+
 def engine_edits(b, edits, author='Tester'):
     """edits: [(target, new, comment|None, index|None)] -> dict(ap, sk, out, oracle, ts, err)"""
     from adeu.redline.engine import RedlineEngine
@@ -168,6 +176,8 @@ def engine_edits(b, edits, author='Tester'):
         if _real_find(self, target_text) == -1:
             rec.append(None if r[0] == -1 else [r[0], r[1]])
             if r[0] != -1 and not (0 <= r[0] and r[0] + r[1] <= len(self.full_text)): rec.append('CONTRACT')
+            # an approximate answer still denotes the target: the same text up to markers, quote style and whitespace
+            elif r[0] != -1 and _loose(self.full_text[r[0]:r[0] + r[1]]) != _loose(target_text): rec.append('CONTRACT2')
         return r
     DocumentMapper.find_match_index = wrapped
     try:
@@ -200,7 +210,7 @@ def canon_session(doc, din, ts=None):
 
 def sx_edits_line(din, author, edits, oracle):
     eds = ' '.join('(%s %s %s %s)' % (A.sx_str(t), A.sx_str(n), A.sx_str(c or ''), '()' if i is None else '(1 %d)' % i) for t, n, c, i in edits)
-    orc = ' '.join('()' if o is None else '(%d %d)' % (o[0], o[1]) for o in oracle if o != 'CONTRACT')
+    orc = ' '.join('()' if o is None else '(%d %d)' % (o[0], o[1]) for o in oracle if o not in ('CONTRACT', 'CONTRACT2'))
     return '(%s %s %s (%s) (%s))' % (A.sx_doc(din), A.sx_str(author), A.sx_str('SESSION'), eds, orc)
 
 def mark_ids(doc):
